@@ -3,7 +3,7 @@ mod verif_c20 {
     //! C20 contracts for native literals (overlay appended to api/src/term/_native_literal.rs)
     use super::*;
 
-    /// xsd:integer lexical space:  [+-]?[0-9]+   (b has at most 12 bytes here)
+    /// xsd:integer lexical space:  [+-]?[0-9]+
     fn is_xsd_integer(b: &[u8]) -> bool {
         let mut i = 0;
         if i < b.len() && (b[i] == b'-' || b[i] == b'+') {
@@ -21,6 +21,15 @@ mod verif_c20 {
         true
     }
 
+    fn dt_is(t: &impl Term, iri: &str) -> bool {
+        match t.datatype() {
+            Some(d) => d.as_str() == iri,
+            None => false,
+        }
+    }
+
+    // ---- lexical_form() is in the lexical space of the datatype, for EVERY value (complete: full domain,
+    // digit loops bounded by the type's width, unwinding assertions on) ----
     //@STUBS
     #[kani::proof]
     #[kani::unwind(13)]
@@ -29,24 +38,142 @@ mod verif_c20 {
         let lf = Term::lexical_form(&x).unwrap();
         assert!(lf.len() <= 11);
         assert!(is_xsd_integer(lf.as_bytes()));
+        kani::cover!(x < 0);
+        kani::cover!(x > 999_999_999);
     }
 
     //@STUBS
     #[kani::proof]
-    #[kani::unwind(13)]
-    fn c20_i32_parse_of_format() {
-        let x: i32 = kani::any();
+    #[kani::unwind(22)]
+    fn c20_isize_lexical_form() {
+        let x: isize = kani::any();
         let lf = Term::lexical_form(&x).unwrap();
-        let y: Result<i32, _> = lf.parse();
-        assert!(y == Ok(x));
+        assert!(lf.len() <= 20);
+        assert!(is_xsd_integer(lf.as_bytes()));
+    }
+
+    //@STUBS
+    #[kani::proof]
+    #[kani::unwind(22)]
+    fn c20_usize_lexical_form() {
+        let x: usize = kani::any();
+        let lf = Term::lexical_form(&x).unwrap();
+        assert!(lf.len() <= 20);
+        assert!(is_xsd_integer(lf.as_bytes()));
+    }
+
+    // ---- non-finite f64: lexical form must be INF / -INF / NaN (xsd:double lexical space) ----
+    //@STUBS
+    #[kani::proof]
+    #[kani::unwind(6)]
+    fn c20_f64_pos_inf() {
+        let lf = Term::lexical_form(&f64::INFINITY).unwrap();
+        assert!(&lf[..] == "INF");
     }
 
     //@STUBS
     #[kani::proof]
     #[kani::unwind(6)]
-    fn c20_f64_nonfinite() {
-        let x = f64::INFINITY;
+    fn c20_f64_neg_inf() {
+        let lf = Term::lexical_form(&f64::NEG_INFINITY).unwrap();
+        assert!(&lf[..] == "-INF");
+    }
+
+    //@STUBS
+    #[kani::proof]
+    #[kani::unwind(6)]
+    fn c20_f64_nan() {
+        let lf = Term::lexical_form(&f64::NAN).unwrap();
+        assert!(&lf[..] == "NaN");
+    }
+
+    // ---- bool: both values, lexical form + datatype + round trip (complete: 2 values, loop bounds = IRI length) ----
+    //@STUBS
+    #[kani::proof]
+    #[kani::unwind(50)]
+    fn c20_bool_roundtrip() {
+        let x: bool = kani::any();
         let lf = Term::lexical_form(&x).unwrap();
-        assert!(&lf[..] == "INF");
+        assert!(&lf[..] == if x { "true" } else { "false" });
+        assert!(dt_is(&x, "http://www.w3.org/2001/XMLSchema#boolean"));
+        let y = <bool as TryFromTerm>::try_from_term(x);
+        assert!(y == Ok(x));
+    }
+
+    // ---- round trip on a bounded range (bounded stand-in; the full-domain composition does not finish) ----
+    //@STUBS
+    #[kani::proof]
+    #[kani::unwind(50)]
+    fn c20_i32_roundtrip_small() {
+        let x: i32 = kani::any();
+        kani::assume(-100 < x && x < 100);
+        assert!(dt_is(&x, "http://www.w3.org/2001/XMLSchema#integer"));
+        let y = <i32 as TryFromTerm>::try_from_term(x);
+        assert!(y == Ok(x));
+    }
+
+    // ---- try_from_term on arbitrary short lexical forms: never panics; Ok(v) => v is the denoted value ----
+    #[derive(Debug, Clone, Copy)]
+    struct Lit<'a>(&'a str, &'static str);
+    impl<'a> Term for Lit<'a> {
+        type BorrowTerm<'x> = Self where Self: 'x;
+        fn kind(&self) -> TermKind {
+            TermKind::Literal
+        }
+        fn lexical_form(&self) -> Option<MownStr> {
+            Some(MownStr::from_ref(self.0))
+        }
+        fn datatype(&self) -> Option<IriRef<MownStr>> {
+            Some(IriRef::new_unchecked(MownStr::from_ref(self.1)))
+        }
+        fn language_tag(&self) -> Option<LanguageTag<MownStr>> {
+            None
+        }
+        fn borrow_term(&self) -> Self::BorrowTerm<'_> {
+            *self
+        }
+    }
+
+    fn denoted(b: &[u8]) -> Option<i64> {
+        // reference evaluator for [+-]?[0-9]+ with at most 2 bytes
+        let (neg, digits) = match b.first() {
+            Some(b'-') => (true, &b[1..]),
+            Some(b'+') => (false, &b[1..]),
+            _ => (false, b),
+        };
+        if digits.is_empty() {
+            return None;
+        }
+        let mut v: i64 = 0;
+        let mut i = 0;
+        while i < digits.len() {
+            let d = digits[i];
+            if !(b'0' <= d && d <= b'9') {
+                return None;
+            }
+            v = v * 10 + (d - b'0') as i64;
+            i += 1;
+        }
+        Some(if neg { -v } else { v })
+    }
+
+    //@STUBS
+    #[kani::proof]
+    #[kani::unwind(50)]
+    fn c20_i32_parse_2bytes() {
+        let bytes: [u8; 2] = kani::any();
+        let len: usize = kani::any();
+        kani::assume(len <= 2);
+        kani::assume(bytes[0] < 128 && bytes[1] < 128);
+        let s = std::str::from_utf8(&bytes[..len]).unwrap();
+        let r = <i32 as TryFromTerm>::try_from_term(Lit(s, "http://www.w3.org/2001/XMLSchema#integer"));
+        match (r, denoted(&bytes[..len])) {
+            (Ok(v), Some(d)) => assert!(v as i64 == d),
+            (Ok(_), None) => assert!(false),
+            (Err(_), Some(_)) => assert!(false),
+            (Err(_), None) => {}
+        }
+        let wrong = <i32 as TryFromTerm>::try_from_term(Lit(s, "http://www.w3.org/2001/XMLSchema#string"));
+        assert!(wrong.is_err());
     }
 }
